@@ -12,6 +12,8 @@ mod cancel_token;
 mod promise;
 mod runnable;
 mod util;
+#[cfg(feature = "verif-hooks")]
+pub mod verif;
 
 #[cfg(test)]
 mod tests;
